@@ -35,6 +35,8 @@ func MonitorFor(prop string) Monitor {
 		return MonC15{}
 	case "C13":
 		return MonC13{}
+	case "C18":
+		return MonC18{}
 	case "C10":
 		return MonMulti{Prop: "C10", Mons: []Monitor{MonC01{}, MonC02{}, MonC05{}}}
 	case "C09":
@@ -63,6 +65,9 @@ func Registry(prop, tier string) []UniverseDef {
 	}
 	if prop == "C17" {
 		return C17Registry(tier)
+	}
+	if prop == "C18" {
+		return C18Registry(tier)
 	}
 	if prop != "C04" {
 		// a few compound universes take part in every tree-level property
@@ -112,6 +117,9 @@ func ConfigFor(prop, tier string) Config {
 	if tier == "thorough" {
 		c.RawVariants = 16
 		c.MaxStates = 3000000
+	}
+	if prop == "C18" {
+		c.GC, c.Poison, c.Warm, c.RawVariants = true, false, false, 1
 	}
 	return c
 }
